@@ -30,6 +30,10 @@ def obligations(tier):
             # place where 'is there a reading?' shortcuts that test truthiness start rescanning
             obs.append(Ob(f"standalone-flat-history/{spec_name((kind, name, kw))}", dict(spec=[kind, name, kw], n0=n0, grow=grow, host="indicator", tail=min(tail, 1), flat=True), CFG,
                           weight=10, budget_s=300, max_paths=20000, selfcheck=False))
+        if kind == "ind" and name in ("EMA", "ATR", "KC", "MACD", "BBANDS", "RSI", "STOCH", "TSI", "Supertrend", "HMA", "VWAP", "SMA"):
+            # two candles per append: the resume logic must find the last computed candle further back than the newest
+            obs.append(Ob(f"standalone-append2/{spec_name((kind, name, kw))}", dict(spec=[kind, name, kw], n0=n0, grow=grow, host="indicator", tail=0, chunk=2), CFG,
+                          weight=10, budget_s=300, max_paths=20000, selfcheck=False))
         obs.append(Ob(f"standalone/{spec_name((kind, name, kw))}", dict(spec=[kind, name, kw], n0=n0, grow=grow, host="indicator", tail=tail), CFG, weight=10, budget_s=900, max_paths=20000, selfcheck=False))
     for trio in ([("ind", "EMA", dict(period=3)), ("ind", "RSI", dict(period=3)), ("ind", "BBANDS", dict(period=3))],
                  [("ind", "MACD", dict(fast_period=2, slow_period=3, signal_period=2)), ("ind", "STOCH", dict(period=3, slow_period=2, smoothing_k=2)), ("amorph", "rising", dict(indicator="close", length=2))]):
@@ -109,11 +113,12 @@ def run(ctx, P):
     # and the only thing that varies between the measurements is how much history lies behind them
     ntail = P.get("tail", SYMBOLIC_TAIL)
     tail_vals = [sym_ohlcv(ctx, j, prefix="tail") for j in range(ntail)]
-    newv = sym_ohlcv(ctx, 0, prefix="new")
+    chunk = P.get("chunk", 1)
+    newvs = [sym_ohlcv(ctx, j, prefix="new") for j in range(chunk)]
     for n in lengths:
         hist = history(ctx, n, tail_vals, P.get("flat", False))
-        o, h, l, c, v = newv
-        new = Candle(o, h, l, c, v, timestamp=ctx.const_time(GRID0 + 60 * (n + 1)))
+        news = [Candle(o, h, l, c, v, timestamp=ctx.const_time(GRID0 + 60 * (n + 1 + j))) for j, (o, h, l, c, v) in enumerate(newvs)]
+        new = news[0] if chunk == 1 else news
         if P["host"] == "indicator":
             host = build_any(tuple(P["spec"]), candles=hist)
             host.calculate()
@@ -161,7 +166,7 @@ def finalize(col, obd, replayer):
 
 
 META = dict(
-    bounds=dict(quick="every catalogue indicator and analysis wrapper standalone + two Hexitals of three; append measured at history length n0 (>= warm-up+4) and n0+8, n0+24; last 2 history candles (Supertrend 1, ADX 0) and the appended candle symbolic, shared by all lengths, earlier history = tests/data/test_candles.json, and a second family whose earlier history is flat with zero volume",
+    bounds=dict(quick="every catalogue indicator and analysis wrapper standalone + two Hexitals of three; append measured at history length n0 (>= warm-up+4) and n0+8, n0+24; last 2 history candles (Supertrend 1, ADX 0) and the appended candle symbolic, shared by all lengths, earlier history = tests/data/test_candles.json, a second family whose earlier history is flat with zero volume, and a third appending two candles per call",
                 thorough="n0+8, +24, +64, +160"),
     stubs=["work = executed lines / _calculate_reading calls in hexital/{indicators,analysis,utils}, core/indicator.py, core/hexital.py, counted by sys.settrace during the real append; candle_manager.py excluded (its collapse pass is outside the property's observation point)"],
     assumptions=["the unbounded 'for all n' is not claimed: a regression that rescans or recomputes history grows by >= 2 lines per candle and exceeds the slack (12 lines; measured variation between lengths is <= 4 lines) inside the bound", "older history is concrete: work depends on values only through branches on recent candles"],
